@@ -118,7 +118,7 @@ fn show_mems(ms: &[Mem]) -> String {
     ms.iter().map(|m| hex(m.vis())).collect::<Vec<_>>().join(",")
 }
 
-fn caps(ms: &[Mem]) -> Vec<usize> {
+fn mem_caps(ms: &[Mem]) -> Vec<usize> {
     ms.iter().map(|m| m.capn()).collect()
 }
 
@@ -612,7 +612,7 @@ async fn lock_stream(case: &Case, tp: &str, ex: &RefCell<Exec>, caps: &RefCell<C
                     }
                     let mut mems = parse_shapes(f[3]);
                     let gap = f[2].contains("vec") && has_prefilled_gap(&mems);
-                    let capv = caps(&mems);
+                    let capv = mem_caps(&mems);
                     ex.borrow_mut().tag(format!("recv-{}", f[2]));
                     match recv_once(w.peers[p].r(), f[2], mems).await {
                         Ok(mut r) => {
